@@ -368,7 +368,7 @@ pub fn run_c16(args: &Args) -> Report {
         if kind == "identity" {
             lines.retain(|l| txtpp::verif::Directive::detect_from(l).is_none());
             // "a\n" + "" without final newline is the same text as "a" with one: keep the representation unique
-            if !final_nl && lines.last().map(|l| l.is_empty()).unwrap_or(false) {
+            while !final_nl && lines.last().map(|l| l.is_empty()).unwrap_or(false) {
                 lines.pop();
             }
             src_lines = lines.clone();
